@@ -1893,10 +1893,14 @@ class Process:
         return _psposix.wait_pid(self.pid, timeout, self._name)
 
     @wrap_exceptions
-    def create_time(self):
+    def create_time(self, monotonic=False):
         ctime = float(self._parse_stat_file()['create_time'])
         # According to documentation, starttime is in field 21 and the
         # unit is jiffies (clock ticks).
+        if monotonic:
+            # Seconds since boot: never changes during the process
+            # lifetime, even if the system clock is updated.
+            return ctime / CLOCK_TICKS
         # We first divide it for clock ticks and then add uptime returning
         # seconds since the epoch.
         # Also use cached value if available.
